@@ -235,7 +235,13 @@ class Transform(data_input.DataInputAbstract, Numbered_MCNP_Object):
         new_values = []
         list_iter = iter(self.data)
         length = len(self.data)
-        for k, (value, node) in enumerate(zip(self.displacement_vector, list_iter)):
+        left_off = []
+        for k, value in enumerate(self.displacement_vector):
+            node = next(list_iter, None)
+            if node is None:
+                # the entry was left off: writing drops the jumps at the end of an input
+                left_off.append((k, value))
+                continue
             # a jump stays a jump while its entry has the default value
             if not (node.value is None and value == self._default_entry(k)):
                 node.value = value
@@ -247,6 +253,14 @@ class Transform(data_input.DataInputAbstract, Numbered_MCNP_Object):
             or len(list(self.data)) >= 8
             or not self.is_main_to_aux
         )
+        # entries that were left off come back when one of them, or the rotation behind them, is needed
+        if needs_rotation or any(
+            value != self._default_entry(k) for k, value in left_off
+        ):
+            for k, value in left_off:
+                node = self._generate_default_node(float, value)
+                self.data.append(node)
+                new_values.append(node)
         if needs_rotation:
             flat_pack = self.rotation_matrix
             if len(flat_pack) == 0 and not self.is_main_to_aux:
